@@ -456,6 +456,15 @@ def locally_mutated_containers(stmts):
 
 def exec_for(engine, ctx, st: ast.For, env: Env):
     it = engine.eval(ctx, st.iter, env)
+    if type(it).__name__ == "DynV":
+        from . import dynmodel as _dm
+
+        it = _dm.iter_seq(engine.lib, ctx, it)
+    if isinstance(it, V.BytesV):
+        it = bytes_as_seq(ctx, it)
+    if isinstance(it, (SymSeq, V.EnumSeq)) and is_search_loop(st) and \
+            engine.reg.loops.get((env.finfo.qualname if env.finfo is not None else "", loop_ordinal(env, st))) is None:
+        return exec_search(engine, ctx, st, env, it)
     if isinstance(it, Obj) and it.cls.lookup("__iter__") is not None:
         it = engine.call_function(ctx, it.cls.lookup("__iter__"), [it], {}, dynamic=True)
     if is_concrete_iterable(it):
@@ -506,6 +515,60 @@ def exec_for(engine, ctx, st: ast.For, env: Env):
             raise EngineLimit("variable %r rebound in a loop over a symbolic domain without invariant" % n)
 
 
+def bytes_as_seq(ctx, b):
+    """iteration over a bytes value: the sequence of its bytes as ints (each 0..255)"""
+    i = z3.FreshConst(z3.IntSort(), "bi")
+    ctx.add_axiom(z3.ForAll([i], z3.And(z3.Select(b.arr, i) >= 0, z3.Select(b.arr, i) <= 255), patterns=[z3.Select(b.arr, i)]))
+    return SymSeq(b.arr, V.Int.unwrap(b.length), V.Int)
+
+
+def is_search_loop(st: ast.For) -> bool:
+    """`for x in seq: if cond(x): <statements>; break`  (linear search for the first match; no else branches)"""
+    if st.orelse or len(st.body) != 1 or not isinstance(st.body[0], ast.If):
+        return False
+    iff = st.body[0]
+    if iff.orelse or not iff.body or not isinstance(iff.body[-1], ast.Break):
+        return False
+    for node in iff.body[:-1]:
+        for sub in ast.walk(node):
+            if isinstance(sub, (ast.Break, ast.Continue, ast.Return, ast.For, ast.While)):
+                return False
+    return True
+
+
+def exec_search(engine, ctx, st: ast.For, env: Env, it):
+    """First-match search loop over a symbolic sequence: either no element satisfies the (pure) condition and nothing
+       happens, or the body of the `if` runs once for the first index that satisfies it."""
+    seq = it.seq if isinstance(it, V.EnumSeq) else it
+    start = V.Int.unwrap(it.start) if isinstance(it, V.EnumSeq) else None
+
+    def elem(i):
+        x = seq.at(ctx, i)
+        return (i + start, x) if start is not None else x
+
+    iff = st.body[0]
+    i0 = ctx.fresh("srch", z3.IntSort())
+    scratch = Env(env.module, env, env.finfo)
+    n_taken, n_obl, n_pc = len(ctx.taken), len(ctx.obligations), len(ctx.pc)
+    engine.assign(ctx, st.target, elem(i0), scratch)
+    c0 = engine.truth(ctx, engine.eval(ctx, iff.test, scratch))
+    if len(ctx.taken) != n_taken or len(ctx.obligations) != n_obl:
+        raise EngineLimit("search loop whose condition branches or has obligations")
+    del ctx.pc[n_pc:]
+    c0 = lift_bool(c0)
+    cond = lambda i: z3.substitute(c0, (i0, i))
+    j = z3.FreshConst(z3.IntSort(), "sj")
+    if ctx.choose(2) == 0:
+        ctx.assume(mk_forall([j], z3.Implies(z3.And(0 <= j, j < seq.length), z3.Not(cond(j))), patterns=[z3.Select(seq.arr, j)]))
+        return
+    k = ctx.fresh("found", z3.IntSort())
+    ctx.assume(z3.And(0 <= k, k < seq.length))
+    ctx.assume(cond(k))
+    ctx.assume(mk_forall([j], z3.Implies(z3.And(0 <= j, j < k), z3.Not(cond(j))), patterns=[z3.Select(seq.arr, j)]))
+    engine.assign(ctx, st.target, elem(k), env)
+    engine.exec_block(ctx, iff.body[:-1], env)
+
+
 def exec_for_invariant(engine, ctx, st: ast.For, env: Env, it, inv):
     """for <target> in <SymSeq | symbolic range> with invariant inv(s) -> dict label -> clause.
        s.i is the number of completed iterations, s.<name> the current values of the locals, s.seq the sequence."""
@@ -515,6 +578,9 @@ def exec_for_invariant(engine, ctx, st: ast.For, env: Env, it, inv):
     elif isinstance(it, V.RangeV):
         lo, hi = V.Int.unwrap(it.lo), V.Int.unwrap(it.hi)
         elem = lambda i: i
+    elif isinstance(it, V.EnumSeq):
+        lo, hi = z3.IntVal(0), it.seq.length
+        elem = lambda i: (i + V.Int.unwrap(it.start), it.seq.at(ctx, i))
     else:
         raise EngineLimit("invariant loop over %r" % (it,))
     label = "%s/loop%d" % (short(ctx.func), loop_ordinal(env, st))
@@ -526,7 +592,10 @@ def exec_for_invariant(engine, ctx, st: ast.For, env: Env, it, inv):
         # depending on what the code calls it
         d_.update(i=i, seq=it, lo=lo, hi=hi, ctx=ctx, carried={k: env.vars[k] for k in modified if k in env.vars},
                   enclosing=list(getattr(ctx, "loop_elems", [])),  # current elements of the enclosing invariant loops
-                  old=getattr(ctx, "entry_old", None))  # pre-state of the function (see symexec.make_old_view)
+                  old=getattr(ctx, "entry_old", None),  # pre-state of the function (see symexec.make_old_view)
+                  # materialised objects that the body hands to calls (receiver or argument), whatever the code calls them
+                  touched=[env.vars[vn] for vn in names_in_calls(st.body)
+                           if isinstance(env.vars.get(vn), Obj) and env.vars[vn].fields is not None])
         ns = NS(**d_)
         trig = getattr(inv, "triggers", None)
         if trig is not None:
@@ -538,9 +607,27 @@ def exec_for_invariant(engine, ctx, st: ast.For, env: Env, it, inv):
                 ctx.assume(t)
         return engine.run_spec(ctx, lambda: _as_items(inv(ns)))
 
+    # objects whose class invariant is maintained at calls (`invariant_at_calls`) and that the body hands to calls: their
+    # class invariant is implicitly part of the loop invariant
+    guarded = []
+    for vn in names_in_calls(st.body):
+        o_ = env.vars.get(vn)
+        if isinstance(o_, Obj) and o_.fields is not None and engine._invariant_at_calls(o_.cls) \
+                and not any(o_ is g_ for g_ in guarded):
+            guarded.append(o_)
+
+    def class_inv_items():
+        out = []
+        for o_ in guarded:
+            for lab_, c_ in engine.class_invariants(ctx, o_):
+                out.append(("%s.%s" % (o_.cls.name, lab_), c_))
+        return out
+
     # initiation
     for lab, c in inv_clauses(lo):
         ctx.oblige("%s/inv-init#%s" % (label, lab), lift_bool(c), kind="inv-init")
+    for lab, c in class_inv_items():
+        ctx.oblige("%s/inv-init#class.%s" % (label, lab), lift_bool(c), kind="inv-init")
     # havoc
     kinds = getattr(inv, "kinds", None) or {}
     # collections that the body mutates in place (x.add(...)) are loop-carried too: the invariant declares their kind
@@ -584,9 +671,12 @@ def exec_for_invariant(engine, ctx, st: ast.For, env: Env, it, inv):
         ctx.assume(i < hi)
         for lab, c in inv_clauses(i):
             ctx.assume(lift_bool(c))
+        for lab, c in class_inv_items():
+            ctx.assume(lift_bool(c))
         cur = elem(i)
         engine.assign(ctx, st.target, cur, env)
         ctx.__dict__.setdefault("loop_elems", []).append(cur)  # visible to the invariants of nested loops as s.enclosing
+        ctx.__dict__.setdefault("loop_indices", []).append(i)  # index of the current iteration (for call-site cuts)
         try:
             engine.exec_block(ctx, st.body, env)
         except ContinueSig:
@@ -595,12 +685,17 @@ def exec_for_invariant(engine, ctx, st: ast.For, env: Env, it, inv):
             raise EngineLimit("break in a loop with invariant")
         finally:
             ctx.loop_elems.pop()
+            ctx.loop_indices.pop()
         for lab, c in inv_clauses(i + 1):
             ctx.oblige("%s/inv-step#%s" % (label, lab), lift_bool(c), kind="inv-step")
+        for lab, c in class_inv_items():
+            ctx.oblige("%s/inv-step#class.%s" % (label, lab), lift_bool(c), kind="inv-step")
         raise PathEnd()
     # exit: invariant holds at i = max(lo, hi)
     ctx.assume(z3.If(hi >= lo, i == hi, i == lo))
     for lab, c in inv_clauses(i):
+        ctx.assume(lift_bool(c))
+    for lab, c in class_inv_items():
         ctx.assume(lift_bool(c))
     engine.exec_block(ctx, st.orelse, env)
 
@@ -727,6 +822,12 @@ def build_comprehension(engine, ctx, e, gen, it, env, kind):
                         result.term = z3.K(V.PathSort, z3.BoolVal(False))
                         result.elem_sort = V.PathSort
                     v = v.term
+                if isinstance(v, str) or (isinstance(v, z3.ExprRef) and z3.is_string(v)):
+                    # a set of strings (e.g. {f.name for f in fields}): same rule
+                    if result.elem_sort != z3.StringSort():
+                        result.term = z3.K(z3.StringSort(), z3.BoolVal(False))
+                        result.elem_sort = z3.StringSort()
+                    v = V.Str.unwrap(v)
                 ctx.collector.add(ctx, result, v)
             finally:
                 ctx.bound_guards = saved
